@@ -124,3 +124,39 @@ CHECKS['C20'] = dict(
          'import resolution compared with importlib.machinery.PathFinder on the composed path.',
     note=STUBS + '; private environment passed to every Script; no .. in relative paths',
     technique='exhaustive product enumeration of configurations against a reference model')
+CHECKS['C16'] = dict(
+    text='Three bounded-exhaustive explorations: (i) schedules of jedi\'s only scheduling '
+         'nondeterminism - value-set iteration order - controlled through a descriptor seam on '
+         'ValueSet._set: canonical order vs every single-point reversal (pairs in thorough) for '
+         'every query at every identifier of union-producing programs; (ii) all sequences of <= 3 '
+         '(quick) / <= 4 queries from an 8-event alphabet (two raising) on one Script, then the '
+         'probe battery vs a fresh Script; (iii) the battery in fresh processes under a menu of '
+         'PYTHONHASHSEED x heap perturbation, incl. an Interpreter over type()-made classes.',
+    note=STUBS + '; orders of plain built-in sets are covered by the finite process menu only; goto compared as a set',
+    technique='controlled-scheduler exploration of set-iteration order + stateless history search + process-configuration menu')
+CHECKS['C08'] = dict(
+    text='Stateless explicit-state search over edit histories (28 events: insert/delete/rename/'
+         'parameter change/indent/paste/undo/typing + clock answers 0/4/601 s) on three base '
+         'files in path and path=None modes: after every event a new Script in the same process '
+         'answers a ~215-query battery, compared with a fresh interpreter for the text reached; '
+         'incremental tree compared with a from-scratch parse (the property\'s proviso).',
+    note=STUBS + '; virtual clock owns jedi.cache/parso.cache time and file mtimes; keystroke texts judged only when they raise',
+    technique='stateless history enumeration to bounded depth; differential oracle = fresh process per text')
+CHECKS['C09'] = dict(
+    text='Stateless explicit-state search over file-system histories (16 events: write same/'
+         'different size, delete, module<->package, __init__ add/remove, stub add/remove, rename, '
+         'touch, restart with warm pickle cache) x clock answers (advance / same tick / older '
+         'mtime) on a generated project; after every event a new Script answers 34 probes through '
+         '7 import forms, compared with a fresh interpreter with an empty cache on the same '
+         'snapshot. Deviation-0 histories must be clean.',
+    note=STUBS + '; explorer owns file and directory mtimes; mtime deviations explored at depth <= 2',
+    technique='stateless history enumeration with deviation bounding (mtime answers); differential oracle = fresh process with empty cache')
+CHECKS['C15'] = dict(
+    text='Bounded-exhaustive exploration of definition graphs over 10 edge kinds (assignment, call, '
+         'inheritance, import, attribute, container, decorator, property, generator, __getattr__) '
+         'up to the stated atom/node bounds incl. all small cycles, every query at every use; and 32 '
+         'scaling families (chains, rings, diamonds, trees) for n = 1..64: no exception, work '
+         'counted in sys.monitoring PY_START events of jedi/inference under a calibrated 20x '
+         'budget (hard stop), growth law steps(2n) <= 8*steps(n)+c.',
+    note=STUBS + '; work in parso, jedi/api and the helper process is not counted; no verdict depends on wall time',
+    technique='small-scope exhaustive enumeration of definition graphs with a deterministic step-count oracle')
